@@ -22,7 +22,7 @@ ASSUMPTIONS = [
     "fixed-step solvers run with Newton / fixed-point tolerances 1e-10; verdict thresholds: |g| <= 1e-7 (Rattle, "
     "BackwardEuler, DualStormerVerlet), |g_dot| <= 1e-7 (Rattle), Moreau |g_dot(t_{n+1/2}, q_{n+1/2}, u_{n+1})| <= 1e-8 "
     "with q_{n+1/2} = q_n + dt/2 q_dot(t_n, q_n, u_n) recomputed by the harness",
-    "ScipyDAE (rtol=1e-6, atol=1e-8): |g|, |g_dot| <= 100*(atol + rtol*scale) and the maximum over the last third of "
+    "ScipyDAE (rtol=1e-8, atol=1e-10, tighter than its defaults): |g|, |g_dot| <= 100*(atol + rtol*scale) and the maximum over the last third of "
     "the run <= 3x the maximum over the first third + that bound (no drift)",
     "unit quaternions |  |p| - 1 | <= 1e-12 at every stored step for the four fixed-step schemes (the scipy wrappers "
     "normalise a copy inside an event function and are not 'solvers that normalise')",
@@ -57,7 +57,7 @@ def _case(draw):
     return {"mech": mech, "solver": solver, "dt": dt, "nsteps": nsteps,
             # ScipyIVP computes accelerations and multipliers itself; the system may have been assembled without the
             # consistency solve (u_dot0, la_g0 left at zero)
-            "assemble_consistent": solver != "ScipyIVP" or draw(st.booleans()),
+            "assemble_consistent": draw(st.booleans()) if solver == "ScipyIVP" else draw(st.sampled_from([True, True, False])),
             "dsv_linear_solver": draw(st.sampled_from(["LU", "MINRES (matrix free)"]))}
 
 
@@ -78,7 +78,7 @@ def check(spec):
     if solver == "DualStormerVerlet":
         kw["linear_solver"] = spec["dsv_linear_solver"]
     if solver.startswith("Scipy"):
-        kw.update(rtol=1e-6, atol=1e-8)
+        kw.update(rtol=1e-8, atol=1e-10)
     try:
         sol, wrn = dynbuild.run(solver, system, t1, dt, **kw)
     except (RuntimeError, ValueError) as e:
@@ -115,7 +115,7 @@ def check(spec):
         expect("velocity_constraints_at_midpoint", worst, 1e-8)
     if solver == "ScipyDAE":
         scale = 1.0 + float(np.max(np.abs(q)))
-        bound = 100 * (1e-8 + 1e-6 * scale)
+        bound = 100 * (1e-10 + 1e-8 * scale)
         expect("dae_position_constraints_within_tolerance", gmax, bound)
         expect("dae_velocity_constraints_within_tolerance", gdmax, bound * (1 + float(np.max(np.abs(u)))))
         third = max(1, nt // 3)
@@ -155,6 +155,10 @@ def check(spec):
     bm = spec["mech"].get("base_motion")
     if bm:
         res.label("rheonomic:" + solver, "rheonomic:rotating_base" if "axis" in bm else "rheonomic:translating_base")
+    if not spec.get("assemble_consistent", True):
+        res.label("assembled_without_consistency_solve:" + solver)
+    if spec["mech"].get("p_scale"):
+        res.label("non_unit_initial_quaternion")
     if spec["mech"].get("idle_contact"):
         res.label("idle_contact:" + solver)
     if "drive" in spec["mech"]:
